@@ -145,6 +145,33 @@ def enc_one(op, byte, mode, vals, pc):
     return words(*w)
 
 
+def _w(b, off):
+    return b[off] | b[off + 1] << 8
+
+
+def dec_src_sym(b):
+    """distance target - pc encoded by the first extension word (symbolic source / single operand)"""
+    return sx(2 + _w(b, 2), 16)
+
+
+def dec_dst_sym(b):
+    """distance target - pc encoded by the destination's extension word; its position follows from the
+    source's As/register fields of the instruction word (constant generators have no extension word)"""
+    w = _w(b, 0)
+    a_s, sreg = (w >> 4) & 3, (w >> 8) & 15
+    off = 4 if (a_s == 1 and sreg != 3) or (a_s == 3 and sreg == 0) else 2
+    return sx(off + _w(b, off), 16)
+
+
+def sym_rel(sm, nsrc, dm):
+    r = []
+    if sm == "sym":
+        r.append((0, dec_src_sym))
+    if dm == "sym":
+        r.append((nsrc, dec_dst_sym))
+    return r or None
+
+
 def number(tmpl, start):
     out, k = "", start
     for part in tmpl.split("{}"):
@@ -169,7 +196,8 @@ def build():
                         dc = bytes([0, 0, 0, 0xff])
                     F.append(Form("%s %s,%s" % (mn, sm, dm), "%s %s,%s" % (mn, st, dt), sops + dops,
                                   (lambda op, byte, sm, dm, ns: lambda pc, v: enc_two(op, byte, sm, v[:ns], dm, v[ns:], pc))
-                                  (op, byte, sm, dm, len(sops)), dontcare=dc))
+                                  (op, byte, sm, dm, len(sops)), dontcare=dc, note=None if byte else "W",
+                                  rel=sym_rel(sm, len(sops), dm)))
     for m, (op, hasb) in OPS2.items():
         for byte in ((False, True) if hasb else (False,)):
             for sm in SRC_MODES:
@@ -181,7 +209,8 @@ def build():
                 dc = bytes([0, 0, 0, 0xff]) if byte and sm == "#N" else None
                 F.append(Form("%s %s" % (mn, sm), "%s %s" % (mn, st), sops,
                               (lambda op, byte, sm: lambda pc, v: enc_one(op, byte, "#raw" if sm == "#N" else sm, v, pc))
-                              (op, byte, sm), dontcare=dc))
+                              (op, byte, sm), dontcare=dc, note="W" if hasb and not byte else None,
+                              rel=sym_rel(sm, 0, None)))
     F.append(Form("RETI", "RETI", [], lambda pc, v: words(0x1300)))
     for m, c in JUMPS.items():
         F.append(Form(m + " label", m + " {0}", [Rel(-512, 511, 2, scale=2)],
@@ -198,7 +227,7 @@ def build():
                 mn = m + (".B" if byte else "")
                 F.append(Form("%s %s" % (mn, dm), "%s %s" % (mn, dt), dops,
                               (lambda op, byte, imm, dm: lambda pc, v: enc_two(op, byte, "#N", [imm], dm, v, pc))
-                              (OPS1[real], byte, imm, dm)))
+                              (OPS1[real], byte, imm, dm), note=None if byte else "W", rel=sym_rel(None, 0, dm)))
     for m, real in (("RLA", "ADD"), ("RLC", "ADDC")):
         for byte in (False, True):
             for dm in DST_MODES:
@@ -207,7 +236,8 @@ def build():
                 mn = m + (".B" if byte else "")
                 F.append(Form("%s %s" % (mn, dm), "%s %s" % (mn, dt), dops,
                               (lambda op, byte, dm: lambda pc, v: enc_two(op, byte, dm, v, dm, v, pc))
-                              (OPS1[real], byte, dm)))
+                              (OPS1[real], byte, dm), note=None if byte else "W",
+                              rel=[(0, dec_src_sym), (0, dec_dst_sym)] if dm == "sym" else None))
         # documented special case: rlc @r6+  ==  addc @r6+,-2(r6)
         F.append(Form("%s @Rn+" % m, "%s @{0}+" % m, [Enum(IDXN)],
                       (lambda op: lambda pc, v: enc_two(op, False, "@Rn+", v, "x(Rn)", [-2, v[0]], pc))(OPS1[real])))
@@ -217,12 +247,14 @@ def build():
             dt, _ = number(dtxt, 0)
             mn = "POP" + (".B" if byte else "")
             F.append(Form("%s %s" % (mn, dm), "%s %s" % (mn, dt), dops,
-                          (lambda byte, dm: lambda pc, v: enc_two(4, byte, "@Rn+", [0], dm, v, pc))(byte, dm)))
+                          (lambda byte, dm: lambda pc, v: enc_two(4, byte, "@Rn+", [0], dm, v, pc))(byte, dm),
+                          note=None if byte else "W", rel=sym_rel(None, 0, dm)))
     for sm in SRC_MODES:
         sops, stxt = mode_ops(sm, False, True, nocg=True)
         st, _ = number(stxt, 0)
         F.append(Form("BR " + sm, "BR " + st, sops,
-                      (lambda sm: lambda pc, v: enc_two(4, False, "#raw" if sm == "#N" else sm, v, "Rn", [0], pc))(sm)))
+                      (lambda sm: lambda pc, v: enc_two(4, False, "#raw" if sm == "#N" else sm, v, "Rn", [0], pc))(sm),
+                      rel=sym_rel(sm, 0, None)))
     for m, (real, imm, reg) in {"CLRC": ("BIC", 1, 2), "CLRN": ("BIC", 4, 2), "CLRZ": ("BIC", 2, 2),
                                 "DINT": ("BIC", 8, 2), "EINT": ("BIS", 8, 2), "SETC": ("BIS", 1, 2),
                                 "SETN": ("BIS", 4, 2), "SETZ": ("BIS", 2, 2)}.items():
@@ -233,5 +265,5 @@ def build():
     return F
 
 
-ISAS = [Isa("MSP430", "MSP430", build(), "intel", gran=1, slot=8, base=0x1000, maxaddr=0xffff, maxitems=150, offsets=[0, 2],
+ISAS = [Isa("MSP430", "MSP430", build(), "intel", pcsym="$", gran=1, slot=8, base=0x1000, maxaddr=0xffff, maxitems=150, offsets=[0, 2],
             golden=[("t_msp", {"msp430": True})])]
